@@ -4,9 +4,9 @@
    Two instances serve as oracles:
    - [upper_point]: everything any usable version of a point (fetched *or* stored) carries -- the
      executable form of Spec.Carried (C01: nothing outside this set may be served);
-   - [chosen_point]: exactly what the one version the engine is documented to use carries, i.e.
-     process_point as it would be if ProcessPubPoint::restart were called when an update is
-     aborted -- the executable form of Spec.Published/Chosen (C02: all of this must be served).
+   - [chosen_point]: exactly what the one version the engine is documented to use carries, decided
+     by the conditions of Spec.ChosenCollected instead of by walking the manifest -- the executable
+     form of Spec.Published/Chosen (C02: all of this must be served).
    Definitions only. *)
 From Coq Require Import List NArith ZArith Bool.
 From RV Require Export Engine.Model Engine.Spec.
@@ -88,12 +88,8 @@ Definition chosen_point (cf : cfg) (w : world) : point_fn := fun p chain depth =
   | None => from_store
   end.
 
-(* --- walk orders used to bracket the engine's random order --- *)
-Definition entry_bad (e : entry) : bool := negb (e_present e) || negb (e_hash_ok e).
-(* failing entries first: nothing is processed before the abort *)
-Definition perm_lo (_ : N) (l : list entry) : list entry := filter entry_bad l ++ filter (fun e => negb (entry_bad e)) l.
-(* failing entries last: everything else is processed before the abort *)
-Definition perm_hi (_ : N) (l : list entry) : list entry := filter (fun e => negb (entry_bad e)) l ++ filter entry_bad l.
+(* the walk order used when the model is evaluated (the payload does not depend on it) *)
+Definition perm_id (_ : N) (l : list entry) : list entry := l.
 
 (* ------------------------------------------------------------------------------------------ *)
 (* Item equality, set comparison *)
